@@ -5,7 +5,7 @@ LEVEL = "proof"
 
 
 def run(chk):
-    build, oracle, tables = emucheck.setup(chk, extra_units=("prv", "chan", "mux", "emuloop", "pv", "connect", "bayc", "muxc"))
+    build, oracle, tables = emucheck.setup(chk, extra_units=("prv", "chan", "mux", "emuloop", "pv", "connect", "bayc", "muxc", "prvreg"))
     chk.assumptions = ["distinct clocks per event", "task, mark and breakdown channels are exercised by C07, C17 and C20"]
     rng = chk.rng
     allm = [m["name"] for m in tables["models"] if m["name"] != "ovni"]
@@ -51,6 +51,11 @@ def check_bay_layer(chk, build):
         "Gallina on every run; hand-written preludes coq/Emu/BayCPre.v (pointers into a BayDefs bay: channel names = bay ids, callback "
         "objects = positions in the callback lists, calling a callback pointer = BayDefs.run_dcb / emit, chan_flush) and "
         "coq/Emu/MuxInitPre.v (struct mux under construction; bay_add_cb / bay_find / chan_prop_set with the meaning proved of bay.c)")
+    chk.trusted_base.append(
+        "translate/units/prvreg.py + _stagec.py: prv_register / check_flags / get_id (prv.c) and chan_init (chan.c) translated to Gallina "
+        "on every run; hand-written preludes coq/Emu/PrvRegPre.v (hash table prv->channels as the list of its ids, the struct prv_chan "
+        "being filled, bay_add_cb(BAY_CB_EMIT) appends the BayDefs emit callback read off that struct) and coq/Emu/ChanInitPre.v "
+        "(memset = the zero struct chan of Emu/ChanPre.v, vsnprintf = a length)")
     try:
         bad = baycheck.check_bay(chk, build, chk.budget(3000, 60000))
     except Exception as e:                      # harness or extraction does not build: the tie is broken, not the property
